@@ -46,7 +46,7 @@ func init() {
 				c12Pair(x, u, d)
 			})
 			c.Explore("ordering", "all sequences of <=4 segments with one use and 1-3 competing definitions; a segment is the use, a definition at top level / in a quote / in a list item / in a list item in a quote / twice in one paragraph, or (at most once) one root container holding a tree of quotes and list items of depth <=3 with definitions at different depths in every order", -1, 4, c12Ordering)
-			for _, p := range []planEntry{{spaces.I, 4, 5}, {spaces.XRef, 5, 6}, {spaces.XLink, 5, 6}, {spaces.L, 3, 4}, {spaces.XNulRef, 5, 6}} {
+			for _, p := range []planEntry{{spaces.I, 4, 5}, {spaces.XRef, 5, 6}, {spaces.XLink, 5, 6}, {spaces.L, 3, 4}, {spaces.XNulRef, 5, 6}, {spaces.XDefs, 5, 6}} {
 				sp := p.sp
 				n := c.Pick(p.quick, p.thorough)
 				c.Explore("closure-"+sp.Name, fmt.Sprintf("closure laws on all inputs of <=%d tokens over %s", n, sp.Name), -1, n, func(x *X) {
